@@ -95,7 +95,7 @@ PROPS["C10"] = dict(
     unverified_links=[
         "heartbeat::maybe_process_response (closure passed to with_state_mut, consensus_decode): order of processing, counters, dropping the rest of a response",
         "what insert_next_block_headers' callees decide (header decoder, ValidationContext::new_with_next_block_headers, HeaderValidator of unit valid, UnstableBlocks::insert_next_block_header: stand-ins); the function's own loop IS verified: total on any list of blobs, touches only the announced headers",
-        "ValidationContext::new's second half (the `.map(..).collect()` pipeline building the header chain) and its glue; unstable_blocks::push body",
+        "the glue of ValidationContext::new's two verified halves (admission checks; the (header, hash) chain = the branch to the parent); unstable_blocks::push body",
     ],
     assumptions=COMMON_ASSUMPTIONS + ["block.hash is the hash of block.header (ic_btc_types::Block)", "stable, unstable and announced heights below 2^31 - 2^17; a reply carries fewer than 2^15 blocks and announces fewer than 2^16 headers (preconditions of maybe_process_response)"],
 )
